@@ -112,6 +112,35 @@ def finding_matches(f, prop, v):
     return False
 
 
+def _finding_applies(f, prop, v):
+    """mode and features of the finding fit the violation (its item predicate is judged per item by the caller)"""
+    if f.get("property") != prop or v.mode not in (f.get("modes") or [f.get("mode")]):
+        return False
+    m = f.get("match", {})
+    feats = m.get("features")
+    if not feats or "all_items" not in m:
+        return False
+    alts = feats if isinstance(feats, list) else [feats]
+    return any(alt and all(v.features.get(k) == val for k, val in alt.items()) for alt in alts)
+
+
+def covered_by_several(findings, prop, v):
+    """one case may fail through two listed findings at once (e.g. an enum that is hit by a tagging defect on some inputs and by a
+    naming defect on others): it is known iff EVERY failing input is named by some applicable finding's item predicate.
+    Returns the list of findings used, or None."""
+    if not v.items:
+        return None
+    app = [f for f in findings if _finding_applies(f, prop, v)]
+    used = []
+    for it in v.items:
+        hit = next((f for f in app if _pred(f["match"]["all_items"], it)), None)
+        if hit is None:
+            return None
+        if hit not in used:
+            used.append(hit)
+    return used if len(used) > 1 else None
+
+
 def write_evidence(prop, tier, seed, res, wall, n_viol, level="model_checking"):
     ensure_dir(EVIDENCE)
     cov = {
@@ -142,6 +171,11 @@ def report(prop, violations):
                 break
         if hit:
             matched.setdefault(hit["id"], [hit, 0])[1] += 1
+            continue
+        several = covered_by_several(findings, prop, v)
+        if several:
+            for f in several:
+                matched.setdefault(f["id"], [f, 0])[1] += 1
         else:
             unlisted.append(v)
     for fid, (f, n) in sorted(matched.items()):
